@@ -191,7 +191,7 @@ func (w *world) handle(rd api.DeviceRemoteInterface, b []byte) {
 	_, _ = rd.HandleSpineMesssage(b)
 }
 
-var frameRe = regexp.MustCompile(`(?m)^github\.com/enbility/spine-go/(\S+?)\(`)
+var frameRe = regexp.MustCompile(`(?m)^github\.com/enbility/spine-go/(.+)\([^()]*\)$`)
 
 func (w *world) recoverPanic() {
 	r := recover()
@@ -669,6 +669,7 @@ func main() {
 		return w.flap(nConn - 1)
 	})
 	add("event-subscription", func(r *rand.Rand) string {
+		time.Sleep(500 * time.Microsecond)
 		h2 := &handler{}
 		_ = spine.Events.Subscribe(h2)
 		_ = spine.Events.Unsubscribe(h2)
